@@ -57,6 +57,29 @@ class Operator:
         return self.roles.get(bid, "?")
 
 
+def _mentions_closure(e, cid):
+    """Does the expression use closure `cid` as a value?  Being captured by another closure is not a use: what that closure
+    does with the capture shows up in its own effects."""
+    stack = [e]
+    n = 0
+    while stack:
+        x = stack.pop()
+        n += 1
+        if n > 100000:
+            return True
+        if not isinstance(x, tuple) or not x:
+            continue
+        if isinstance(x[0], str):
+            if x[0] == "agg" and len(x) > 3 and x[1] in ("closure", "coroutine"):
+                if x[2] == cid:
+                    return True
+                continue
+            stack.extend(y for y in x[1:] if isinstance(y, tuple))
+        else:
+            stack.extend(y for y in x if isinstance(y, tuple))
+    return False
+
+
 class Model:
     def __init__(self, prog):
         self.prog = prog
@@ -84,6 +107,27 @@ class Model:
         for op in self.ops.values():
             for bid in op.bodies:
                 body_effects(P, P.bodies[bid])
+        # a local closure with arguments that was inlined at every direct call and is mentioned by no remaining effect (not sent,
+        # stored, or passed on) has no other caller: its own body is not an arm of anything
+        for cid in sorted(P.inlined_closures):
+            own = {cid} | {b for b in P.bodies if cid in P.ancestors(b)}
+            escaped = False
+            for op in self.ops.values():
+                for bid in op.bodies:
+                    if bid in own:
+                        continue
+                    for e in self.all_effects(bid):
+                        for val in e.d.values():
+                            vals = val if isinstance(val, (list, tuple)) and val and not isinstance(val[0], str) else [val]
+                            for x0 in vals:
+                                if isinstance(x0, tuple) and _mentions_closure(x0, cid):
+                                    escaped = True
+            if not escaped:
+                for op in self.ops.values():
+                    op.bodies = [b for b in op.bodies if b not in own]
+                for b in own:
+                    self.body_op.pop(b, None)
+                self.inlined_away = getattr(self, "inlined_away", set()) | own
         # indirect calls through a cell holding a local closure (concat's next_ref) become thunk calls
         for op in self.ops.values():
             for bid in op.bodies:
